@@ -871,7 +871,9 @@ ACCOUNTED = {
 }
 
 
-def c10_r1(ctx, f):
+def c10_r1(ctx, f, evaluated=None):
+    """evaluated: {function-path prefix: rule id} for code that a partial-evaluation rule of this run executed on every
+    configuration it enumerates without meeting a panic (a reachable panic there is a `diverge` verdict of that rule)"""
     from .rules_encode import panic_inventory
     rid = "C10.R1"
     ctx.rule(rid, "every explicit panic site reachable from build is accounted for by a discharging precondition")
@@ -883,6 +885,11 @@ def c10_r1(ctx, f):
     for key, n in sorted(seen.items()):
         acc = ACCOUNTED.get(key)
         ok = acc is not None and n <= acc[0]
+        if not ok and evaluated:
+            by = [r for pre, r in evaluated.items() if key[0].startswith(pre)]
+            if by:
+                ctx.ok(rid, "%s %s: not met on any configuration evaluated by %s" % (key[0], key[1], by[0]))
+                continue
         line = [s["line"] for s in sites if (s["fn"], s["callee"].split("::")[-1]) == key][0]
         ctx.check(rid, ok, "%s/%s" % key, "%s:%s" % (f.fns[key[0]]["file"], line), key[0], "%s x%d" % (key[1], n),
                   "an explicit panic/unwrap is reachable from QRBuilder::build and no precondition is known that rules it out: "
